@@ -40,9 +40,7 @@ SmallOps == { [name |-> "oob", kind |-> "center", box |-> 0],
               [name |-> "mask", tl |-> {1, 2}, masks |-> (1 :> MaskA) @@ (2 :> MaskB)],
               [name |-> "mask", tl |-> {1}, masks |-> (1 :> MaskA)] }
 
-SmallCases == LET S == { [ps |-> l, dims |-> SmallDims, op |-> o] : l \in Lists, o \in SmallOps }
-                  sq == SetToSeq(S)
-              IN  [k \in DOMAIN sq |-> [id |-> k, ps |-> sq[k].ps, dims |-> sq[k].dims, op |-> sq[k].op]]
+SmallCases == { [id |-> 0, ps |-> l, dims |-> SmallDims, op |-> o] : l \in Lists, o \in SmallOps }
 
 \* JSON form of a case, for the driver (the interpretation needs the inputs, too)
 OpJ(o) == CASE o.name = "points" -> [name |-> "points", r |-> o.r,
@@ -72,6 +70,6 @@ OpOf(o) == CASE o.name = "points" ->
              [] o.name = "trim" -> [name |-> "trim", start |-> o.start, end |-> o.end]
              [] OTHER -> o
 FileCases == LET recs == ndJsonDeserialize(IOEnv.CASE_FILE)
-             IN  [k \in DOMAIN recs |-> [id |-> recs[k].id, ps |-> PsOf(recs[k].ps), dims |-> DimsOf(recs[k].dims),
-                                         op |-> OpOf(recs[k].op)]]
+             IN  { [id |-> recs[k].id, ps |-> PsOf(recs[k].ps), dims |-> DimsOf(recs[k].dims), op |-> OpOf(recs[k].op)] :
+                   k \in DOMAIN recs }
 =============================================================================
